@@ -27,6 +27,7 @@ REVERTS = {
 # interpret and the rule cannot tell it from a correct alternative algorithm.  Listed by name with the reason; exit 2 is required for
 # them (exit 0 - a silent pass - would be a self-test failure).
 EXPECTED_NOT_UNDERSTOOD = {
+    "seeded/C06-U/patch.diff": "the launch time reaches the kernels through a positional numpy gather on index_correlation that masks the sentinel 0 only (-1 wraps to the last row): the gap slots are read off a join, which is gone; which sentinels a gather must mask is not modelled",
     "seeded/C20-U/patch.diff": "rank discovery rewritten to read 1 MiB chunks with a 64-character carry-over (a rank whose digits straddle a chunk boundary is truncated): whether a chunked scan sees every match whole is not decidable from the shape; the two shape rules that used to answer (pattern literal not found, no line loop) recognised none of their constructs",
     "seeded/C03-V/patch.diff": "an np.lexsort fast path for threads without zero-duration events hands the scan an array the comparator never sorted: the tie rules were decided for the comparator, not for a lexicographic key (clause: the comparator sort is on every path)",
     "seeded/C05-O/patch.diff": "type labels looked up through a table keyed by the running value: the label column is built another way; the old catch came from the label-loop rule reading decisions that are absent from that construction",
